@@ -28,7 +28,7 @@ m = {
     "version": 1,
     "setup_cmd": "bash setup.sh",
     "hooks": {"guard": "heroku_libcnb_rs_verif", "enable": "none needed: xt reads the sources of the working tree; the bounded harness links the real crates through path dependencies",
-              "baseline_off_cmd": "cd /repo && cargo test --workspace --no-fail-fast --offline", "source_commits": [], "add_only": True},
+              "baseline_off_cmd": "cd /repo && cargo test --workspace --no-fail-fast --offline --lib --bins --tests", "source_commits": [], "add_only": True},
     "engines": [
         {"name": "verus-contracts", "path": "/verif/check.py", "serves_properties": [c["property_id"] for c in checks],
          "kind_free_text": "contract-based deductive verification: xt (syn) extracts the real functions from /repo on every run, contracts from units/*.vrs are spliced in, Verus 0.2026.09.13 discharges every obligation; shims/*.rs are the assumed contracts on std/dependencies"},
